@@ -73,8 +73,12 @@ def conclude(prop, module, tier, seed, stats, t0, pool, *, assumptions, rule, ex
     for cs, sig, ent in new:
         if (cs.harness, sig) in seen_sigs and len(seen_sigs) > 20:
             continue
-        # confirm by replaying the recorded schedule twice in a worker
-        rep = pool.call(dict(type='replay', module=module, harness=cs.harness, cfg=cs.cfg, choices=ent['choices']))
+        if ent.get('no_replay'):
+            # found by a free-running conformance twin (real processes): nothing to replay under the scheduler
+            rep = dict(verdict=(sig, ent['detail']), same=True, trace=[], observation=ent['detail'])
+        else:
+            # confirm by replaying the recorded schedule twice in a worker
+            rep = pool.call(dict(type='replay', module=module, harness=cs.harness, cfg=cs.cfg, choices=ent['choices']))
         v = rep['verdict']
         if not rep['same'] or v is None or v[0] != sig:
             log(f'ENGINE-ERROR: property={prop} violation {sig!r} of {cs.harness} {cs.cfg} did not replay '
